@@ -368,3 +368,6 @@ func Run(opt Options) int { return scripteng.Run(spec(opt)) }
 func Replay(rp *evidence.Replay) int {
 	return scripteng.Replay(spec(Options{Property: rp.Property}), rp)
 }
+
+// Digest is the determinism probe used by `./check selftest`.
+func Digest(opt Options, n, k int) (string, error) { return scripteng.Digest(spec(opt), n, k) }
